@@ -55,9 +55,14 @@ func c14Eligible(a system.IP) bool {
 	return a.Address.Addr().Is6() && !a.Deprecated && !a.Temporary && !a.Tentative
 }
 
-func c14Apply(c c14Case, addrs []system.IP) ([]ndp.Option, error) {
-	static := slices.Clone(c.Static)
-	r := &RDNSS{
+func c14Plugin(c c14Case, cur *[]system.IP) *RDNSS {
+	// spare capacity, as a slice filled by append (the parser's) usually has
+	static := make([]netip.Addr, len(c.Static), len(c.Static)+4)
+	copy(static, c.Static)
+	if len(c.Static) == 0 {
+		static = nil
+	}
+	return &RDNSS{
 		Auto:     true,
 		Lifetime: time.Duration(c.Lifetime),
 		Servers:  static,
@@ -65,9 +70,17 @@ func c14Apply(c c14Case, addrs []system.IP) ([]ndp.Option, error) {
 			if c.SrcErr {
 				return nil, errVerifSource
 			}
-			return vkCopyIPs(addrs), nil
+			return vkCopyIPs(*cur), nil
 		},
 	}
+}
+
+func c14Apply(c c14Case, addrs []system.IP) ([]ndp.Option, error) {
+	cur := addrs
+	return c14ApplyOn(c, c14Plugin(c, &cur))
+}
+
+func c14ApplyOn(c c14Case, r *RDNSS) ([]ndp.Option, error) {
 	ra := &ndp.RouterAdvertisement{Options: []ndp.Option{vkSentinel()}}
 	err := r.Apply(ra)
 	if len(ra.Options) == 0 || fmt.Sprint(ra.Options[0]) != fmt.Sprint(vkSentinel()) {
@@ -138,6 +151,33 @@ func c14Prop(k *verifkit.Kit) func(c c14Case) error {
 			k.Unspecified("automatic pick equals a static server")
 		} else if !slices.Equal(o.Servers[1:], c.Static) {
 			return verifkit.Violf("C14/static-servers", "static servers want %v got %v", c.Static, o.Servers[1:])
+		}
+		// history on ONE plugin object with a changing listing (and repeated builds)
+		if len(c.Addrs) > 1 && !slices.Contains(c.Static, want) {
+			cur := c.Addrs
+			pl := c14Plugin(c, &cur)
+			for step, list := range [][]system.IP{c.Addrs, c.Addrs, c.Addrs[1:], c.Addrs[:len(c.Addrs)/2], c.Addrs} {
+				cur = list
+				g, err := c14ApplyOn(c, pl)
+				if v, ok := err.(*verifkit.Violation); ok {
+					return v
+				}
+				w, ok := verifref.BestRDNSS(list)
+				if !ok {
+					if err == nil {
+						return verifkit.Violf("C14/no-eligible-address-accepted", "Apply %d on the same plugin: no eligible address in %v but an option was built: %s", step, list, vkOptsString(g))
+					}
+					continue
+				}
+				if err != nil || len(g) != 1 {
+					return verifkit.Violf("C14/stale-or-accumulated-state", "Apply %d on the same plugin: err=%v options=%s", step, err, vkOptsString(g))
+				}
+				o, _ := g[0].(*ndp.RecursiveDNSServer)
+				wantServers := append([]netip.Addr{w}, c.Static...)
+				if o == nil || (!slices.Contains(c.Static, w) && !slices.Equal(o.Servers, wantServers)) {
+					return verifkit.Violf("C14/stale-or-accumulated-state", "Apply %d on the same plugin with listing %v: want servers %v got %s", step, list, wantServers, vkOptsString(g))
+				}
+			}
 		}
 		if len(c.Perm) > 0 && len(c.Addrs) > 0 {
 			got2, err := c14Apply(c, vkPermute(c.Addrs, c.Perm))
